@@ -15,6 +15,7 @@ find $S/repo -name '*_test.go' -delete
 $V/port/port.sh $S/repo
 $V/port/seams.py $S/repo
 $V/port/seams.py $S/repo client
+$V/port/seams.py $S/repo gossip
 cp -r $V/lib $S/repo/verifx
 for d in $(cd $V/harness && find . -name '*.go' -printf '%h\n' | sort -u); do cp $V/harness/$d/*.go $S/repo/$d/; done
 (cd $S/repo && go build -tags verif -trimpath ./... && go vet -tags verif ./verifx/ev >/dev/null 2>&1 || true)
